@@ -32,6 +32,10 @@ def run(ctx):
         write_cfg(d / "Sched2_run.cfg", "GSpec", dict(base, Procs="<- MCProcs2", Vals="<- MCVals1", Confs="<- ConfsSched",
                                                       MaxEvents=4), invariants=["Emit", "Inv"])
         ctx.tlc(d, "CacheGen", "Sched2_run.cfg", label="cache-sched-all", timeout=1800)
+    # a call-back that panics while the other process is active: the lock must be free afterwards.
+    write_cfg(d / "SchedF_run.cfg", "GSpec", dict(base, Procs="<- MCProcs2", Vals="<- MCVals1", Confs="<- ConfsFault1",
+                                                  MaxNest=1, MaxEvents=4 if q else 5), invariants=["Emit", "Inv"])
+    ctx.tlc(d, "CacheGen", "SchedF_run.cfg", label="cache-sched-fault", timeout=1800)
     write_cfg(d / "SchedSim_run.cfg", "GSpec", dict(base, Procs="<- MCProcs3", Vals="<- MCVals", Confs="<- ConfsSched", MaxEvents=24),
               invariants=["Emit", "Inv"])
     ctx.tlc(d, "CacheGen", "SchedSim_run.cfg", simulate=600 if q else 5000, depth=25, workers=8, label="cache-sched-sim")
